@@ -295,7 +295,15 @@ func execKD(c kdCase) (*kdRun, error) {
 	for p := 0; p < c.N; p++ {
 		if run.Polys[p] == nil {
 			// the party never reached round 2 (a panic or error in round 1: e.g. a zero coefficient cannot be published)
-			return &kdRun{Case: c, Skip: fmt.Sprintf("party %d never opened its commitment", p+1)}, nil
+			why := ""
+			for _, n := range s.Nodes {
+				if n.Panic != "" {
+					why += fmt.Sprintf(" [party %d panic at %s: %s]", n.G, crashSite(n.Panic), core.Short(n.Panic, 80))
+				} else if n.Err != nil {
+					why += fmt.Sprintf(" [party %d error: %s]", n.G, core.Short(n.Err.Error(), 200))
+				}
+			}
+			return &kdRun{Case: c, Skip: fmt.Sprintf("party %d never opened its commitment%s", p+1, why)}, nil
 		}
 	}
 	for _, n := range s.Nodes {
@@ -583,7 +591,7 @@ func kdPhase(ctx *core.Ctx, cov *core.Cov, prop string) error {
 			// the dealt shares are the values of the published polynomial (honest dealers: a C03 matter in every run)
 			for j := 1; j <= c.N; j++ {
 				if j != p && run.Shares[p-1][j-1] != evalPoly(run.Polys[p-1], c.Ids[j-1], c.Q) {
-					ctx.Report("C03:toy-data:share-not-on-published-polynomial", fmt.Sprintf("%s: party %d sent party %d the share %d, its published commitments evaluate to %d at that party's id",
+					ctx.Report(key+":share-not-on-published-polynomial", fmt.Sprintf("%s: party %d sent party %d the share %d, its published commitments evaluate to %d at that party's id",
 						c.id(), p, j, run.Shares[p-1][j-1], evalPoly(run.Polys[p-1], c.Ids[j-1], c.Q)), c)
 					badModel = true
 				}
@@ -644,7 +652,7 @@ func kdPhase(ctx *core.Ctx, cov *core.Cov, prop string) error {
 					}
 					badModel = true
 				case got.Out == "panic":
-					ctx.Report("C06:toy-data:panic", fmt.Sprintf("%s: party %d panicked on an altered value: %s", c.id(), p, got.Detail), c)
+					ctx.Report(key+":panic", fmt.Sprintf("%s: party %d panicked on an altered value: %s", c.id(), p, got.Detail), c)
 					badModel = true
 				}
 			}
